@@ -977,6 +977,13 @@ func lemmaCreateThenMapQueue(data []byte, cap uint32) {
 //@   loop 0 invariant[C01,C02] i == 0 && oldHead == old(*b.head) && *b.size == old(*b.size) - 1 && remain == old(*b.size) - 1 && remain > 0
 //@   loop 0 invariant[C01,C02] *b.head == old(*b.head) && *b.tail == old(*b.tail) && *b.counter == old(*b.counter) && b.n == old(b.n) && b.cs == old(b.cs) && b.held == old(b.held) && b.chain == old(b.chain) && b.pos == old(b.pos) && b.valid == old(b.valid)
 //@   loop 0 modifies[C01,C02] *b.head
+// pop@conc (C01/C02 under interference by other threads that keep the list invariant): the successor published
+// by the CAS must be the head's successor AT THE TIME OF THE CAS. It is not: the successor was read before the
+// CAS and the CAS compares only the head offset (ABA) - finding F11, demonstrated by /verif/findings/F11/run.sh.
+//@   requires[C01@conc,C02@conc] wfList(b)
+//@   interference[C01@conc,C02@conc] region(b.bufferRegion), b.cs, b.n, b.chain, b.pos, b.held
+//@   rely[C01@conc,C02@conc] wfList(b) && b.valid == old(b.valid) && b.gstride == old(b.gstride)
+//@   at call? sync/atomic.CompareAndSwapUint32#0 check[C01@conc,C02@conc] *b.head == a1 && b.n >= 2 ==> a2 == b.chain[b.cs + 1]
 //@   modifies[C01,C02] *b.size, *b.head, *b.counter, b.bufferRegion[0 : len(b.bufferRegion)], b.held, b.cs, b.n
 
 // push returns a held slot to the chain: it becomes the new tail, the old tail is linked to it.
